@@ -6,24 +6,34 @@ P = dict(
               'ending by pass / FAIL / CHECK / FAIL_TEXT_C / CHECK_C / throw) run over a private TestRegistry and through CommandLineTestRunner::runAllTestsMain; '
               'oracles: shadow copy of the targets taken at setup entry and compared after the post actions (plus canaries between the targets), '
               'attempt/completion counters for the 32-entry limit, list model of the chain (install = push front, remove = erase that element, enabled flags) '
-              'compared structurally after every operation and behaviourally (order log of recording plugins) after every test; ASan/UBSan build watches the table',
+              'compared structurally after every operation and behaviourally (order log of recording plugins) after every test, also in executions where recording plugins report a failure for the test '
+              'from their pre and/or post action (TestResult::addFailure, 1 or 2 failures; those failures are subtracted before the limit / spurious-failure oracles); ASan/UBSan build watches the table',
     rule='a case is a program: plugin universe (recording plugins, recording/plain SetPointerPlugins, the runner\'s own SetPointerPlugin), executions = (chain operations, one scripted test) '
-         'grouped into runs, chain operations applied between runs and between tests of one run; two sections are enumerated completely '
-         '(remove-by-name: chains of 1..6 x every enabled mask x every position + absent name; limit: 30..36 redirections x placement x ending x target pattern, followed by a small test and a test filling the table exactly). '
+         'grouped into runs, chain operations applied between runs and between tests of one run; in part of the executions plugin actions (pre, post, both, of one or two plugins) report a failure for the test; '
+         'three sections are enumerated completely '
+         '(remove-by-name: chains of 1..6 x every enabled mask x every position + absent name; limit: 30..36 redirections x placement x ending x target pattern, followed by a small test and a test filling the table exactly; '
+         'failing actions: chains of 1..5 x every enabled mask x every complaining plugin x {pre, post, pre+post, pre with 2 failures + post of the neighbour} x ending {pass, FAIL, CHECK_C in setup}, followed by a plain test). '
          'Non-trivial = a test execution that redirects one target >= 2 times (distinct by script: baseline, redirections per phase, failing statements), '
-         'or a chain operation (remove / enable / disable, also the runner removing its own plugin) on a plugin at depth >= 2 (distinct by chain names + enabled flags + operation + depth)',
+         'or a chain operation (remove / enable / disable, also the runner removing its own plugin) on a plugin at depth >= 2 (distinct by chain names + enabled flags + operation + depth), '
+         'or a test execution in which a plugin action reports a failure while actions of other enabled recording plugins are still due after it (distinct by chain + complaining plugins + failures each + ending)',
     floor=dict(quick=15000, thorough=300000),
     counter_floor=dict(
         quick=dict(tests_sets_over_32=3000, tests_filling_the_table_exactly_and_passing=2000, repeatedly_redirected_targets_compared=50000,
                    remove_pos_deep=3000, remove_pos_head=3000, chain_op_remove_absent=3000, chain_ops_between_tests_of_one_run=10000,
                    disabled_installed_plugins_during_tests=20000, tests_ending_throw=5000, **{'tests_ending_fail-c': 5000, 'tests_ending_fail-cpp': 5000},
-                   runs_through_command_line_runner=5000, order_logs_compared=50000),
+                   runs_through_command_line_runner=5000, order_logs_compared=50000,
+                   pre_action_failures_with_enabled_plugins_behind=3000, post_action_failures_with_enabled_plugins_in_front=3000,
+                   pre_action_failures_not_at_the_head=2000, tests_passing_by_themselves_but_failed_by_a_plugin_action=3000,
+                   tests_redirecting_pointers_with_a_plugin_action_reporting_a_failure=2000),
         thorough=dict(tests_sets_over_32=60000, tests_filling_the_table_exactly_and_passing=40000, repeatedly_redirected_targets_compared=1000000,
                       remove_pos_deep=60000, chain_op_remove_absent=60000, chain_ops_between_tests_of_one_run=200000,
                       tests_ending_throw=50000, **{'tests_ending_fail-c': 100000},
-                      runs_through_command_line_runner=100000, order_logs_compared=1000000),
+                      runs_through_command_line_runner=100000, order_logs_compared=1000000,
+                      pre_action_failures_with_enabled_plugins_behind=30000, post_action_failures_with_enabled_plugins_in_front=30000,
+                      tests_redirecting_pointers_with_a_plugin_action_reporting_a_failure=30000),
     ),
     assumptions=[
+        'plugin actions report failures the way the stock plugins do (TestResult::addFailure with a TestFailure naming the test); actions that throw or leave by longjmp are not generated',
         'LP64 (all redirected pointers are 8 bytes)',
         'tests call UT_PTR_SET only while a SetPointerPlugin is installed and enabled (the facility is the plugin plus the macro); programs in which it is disabled or removed for a while redirect nothing during that window',
         'plugin names are unique within a chain and never "null" (the name of the internal terminator plugin: removePluginByName("null") detaches the terminator - observed, outside the statement)',
